@@ -632,6 +632,15 @@ main(void)
                 __CPROVER_assume(job.num_sgl_io_segs <= 2);
         }
         st->imb_errno = 0;
+        /* ghost copies (named, so the counterexample trace can be turned into a native replay) */
+        const uint64_t g_key_len = job.key_len_in_bytes, g_clen = job.msg_len_to_cipher_in_bytes, g_hlen = job.msg_len_to_hash_in_bytes,
+                       g_coff = job.cipher_start_src_offset_in_bytes, g_hoff = job.hash_start_src_offset_in_bytes, g_ivlen = job.iv_len_in_bytes,
+                       g_taglen = job.auth_tag_output_len_in_bytes;
+        const unsigned g_mode = job.cipher_mode, g_dir = job.cipher_direction, g_hash = job.hash_alg, g_order = job.chain_order, g_sgl = job.sgl_state;
+        const unsigned g_ptrs = (job.src != NULL) | (job.dst != NULL) << 1 | (job.iv != NULL) << 2 | (job.enc_keys != NULL) << 3 | (job.dec_keys != NULL) << 4 |
+                                (job.auth_tag_output != NULL) << 5 | (job.u.XCBC._k1_expanded != NULL) << 6 | (job.u.XCBC._k2 != NULL) << 7 |
+                                (job.u.XCBC._k3 != NULL) << 8 | (job.cipher_fields.CBCS.next_iv != NULL) << 9 | (job.cipher_func != NULL) << 10 |
+                                (job.hash_func != NULL) << 11;
         const IMB_JOB before = job;
         const uint64_t viol = spec(&job);
         const int r = is_job_invalid(st, &job, job.cipher_mode, job.hash_alg, job.cipher_direction,
